@@ -98,11 +98,21 @@ def run(ctx, w):
     ctx.not_decided = ["nothing about SGR itself; cell placement is C04/C07"]
     ctx.exhaustive = True
 
-    # make Color::rgb / RGB8::new transparent for the interpreter
-    def ext_call(self, fp, args):
-        return ("ext", fp, tuple(args))
-    SE.Interp.ext_call = ext_call
+    decode_rules(ctx, w)
+    apply_rules(ctx, w, S, R)
+    mask_rules(ctx, w)
+    # G4: cells carry the pen (shared with C04 / C07)
+    from rules import c04, c07, c03
+    c04.print_rules(ctx, w, S, R)
+    c07.pens(ctx, w, S, R)
+    c07.nocontent(ctx, w, S, R, None)
+    # parameters handed to the decoder are exactly those of the current sequence
+    # (no stale sub-parameters): the memoryless-reset rules of C03
+    c03.run_t7(ctx, w, tables.parser_tables(w))
+    c03.capacity(ctx, w, tables.parser_tables(w), rule="G1d")
 
+
+def decode_rules(ctx, w):
     ev = SgrEval(w)
     nh = w.hir(ev.next_fn)
     lits = H.expr_literals(nh["body"])
@@ -200,16 +210,6 @@ def run(ctx, w):
         ctx.check(ok, "G1c", fn, "Color::rgb returns %s" % [w.tstr(fn, t) for t in rts], loc=w.fn_loc(fn), sample={"returns": [w.tstr(fn, t) for t in rts]})
     else:
         ctx.missing_anchor("G1c", fn)
-
-    apply_rules(ctx, w, S, R)
-    mask_rules(ctx, w)
-    # G4: cells carry the pen (shared with C04 / C07)
-    from rules import c04, c07, c03
-    c04.print_rules(ctx, w, S, R)
-    c07.pens(ctx, w, S, R)
-    # parameters handed to the decoder are exactly those of the current sequence
-    # (no stale sub-parameters): the memoryless-reset rules of C03
-    c03.run_t7(ctx, w, tables.parser_tables(w))
 
 
 def apply_rules(ctx, w, S, R):
